@@ -10,6 +10,8 @@ CONSTANTS
   Ev1Set = {"Close", "Drop", "PeerCloseNotify", "PeerSctpAbort", "PeerSctpShutdown", "IceStop", "SocketLoss", "BlockedSender"}
   WfcBudget = 2
   Answerer = FALSE
+  MaxFlaps = 0
+  IceFailFallback = TRUE
   Ev2Set = {"Close"}
 INVARIANTS TypeOK ReasonSet CloseAtMostOnce
 PROPERTIES TerminalIsStable CloseEventually ReportsTerminal LocalEndsClosed NoHang Released
